@@ -289,3 +289,75 @@ func H_C02_cbroundtrip() {
 	assert(ok && empty.Checkpoint.SeqNo == 0 && empty.Checkpoint.VbUUID == 0, "a vBucket without a stored checkpoint loads as empty")
 	cover("cb-roundtrip")
 }
+
+// H_C20_cbload: the checkpoint read. cbMetadata.Load issues its lookups with a
+// background context, so the only deadline is gocbcore's own 5 s Deadline
+// option: per vBucket the server answers promptly (inline or racing), refuses,
+// or stays silent (gocbcore then fails the operation at its Deadline). Load
+// never hangs: it returns the server's documents within the deadline, or the
+// process terminates (an unreadable checkpoint stops start-up, C15) - and no
+// goroutine stays blocked.
+func H_C20_cbload() {
+	g := vNewGocb()
+	g.honourDeadline = true
+	cfg := vCbMetaConfig()
+	md := NewCBMetadata(&client{config: cfg}, cfg)
+	ids := []uint16{0, 1}
+	var answer, timing [2]int
+	var docs [2]*models.CheckpointDocument
+	for i := range ids {
+		answer[i] = choose("answer", 3) // 0 document, 1 not found, 2 refused
+		timing[i] = []int{0, 1, 3}[choose("timing", 3)]
+		docs[i] = vCpDoc("doc")
+	}
+	idx := func(key string) int {
+		for i, vb := range ids {
+			if key == string(getCheckpointID(vb, "grp")) {
+				return i
+			}
+		}
+		return -1
+	}
+	calls := 0
+	g.timing = func(string) int {
+		// timing is asked once per operation, right before kv(): pair them by key through lastKey
+		calls++
+		return timing[idx(g.kvCalls[len(g.kvCalls)-1].key)]
+	}
+	g.kv = func(c vKVCall) ([]byte, gocbcore.Cas, error) {
+		i := idx(c.key)
+		assert(i >= 0, "only checkpoint keys are read")
+		assert(!c.deadline.IsZero(), "every lookup carries a deadline")
+		switch answer[i] {
+		case 0:
+			tok, _ := stub__sonic_Marshal(docs[i])
+			return tok, 1, nil
+		case 1:
+			return nil, 0, vKeyNotFound()
+		}
+		return nil, 0, vErrServer
+	}
+	silent := timing[0] == 3 || timing[1] == 3
+	mustFail := silent || answer[0] == 2 || answer[1] == 2
+	if silent {
+		cover("silent-server")
+	}
+	allowCrash(mustFail)
+	t0 := nowNs()
+	state, _, err := md.Load(ids, "bucket-uuid")
+	assert(!mustFail, "an unreadable or unanswered checkpoint read terminates start-up instead of returning")
+	assert(err == nil, "no error otherwise")
+	assert(nowNs()-t0 <= int64(5*time.Second), "Load returns within the lookup deadline")
+	for i, vb := range ids {
+		d, ok := state.Load(vb)
+		assert(ok, "every requested vBucket is in the result")
+		if answer[i] == 0 {
+			cover("loaded")
+			assert(d.Checkpoint.SeqNo == docs[i].Checkpoint.SeqNo && d.Checkpoint.VbUUID == docs[i].Checkpoint.VbUUID, "the document returned is the server's")
+		} else {
+			assert(d.Checkpoint.SeqNo == 0, "a missing document loads as the empty checkpoint")
+		}
+	}
+	quiesce()
+	assert(blockedThreads() == 0, "no goroutine is left blocked")
+}
